@@ -33,6 +33,11 @@ func IOCodec(rwc io.ReadWriteCloser) *jsonCodec {
 type jsonCodec struct {
 	rwc        io.ReadWriteCloser
 	remoteAddr string
+
+	// dec is kept for the lifetime of the connection: a json.Decoder reads
+	// ahead, and whatever it has buffered beyond the current message (the
+	// beginning of the next ones) would be lost with it.
+	dec *json.Decoder
 }
 
 func (codec *jsonCodec) RemoteAddr() string {
@@ -40,8 +45,11 @@ func (codec *jsonCodec) RemoteAddr() string {
 }
 
 func (codec *jsonCodec) ReadMessage() (*Message, error) {
+	if codec.dec == nil {
+		codec.dec = json.NewDecoder(codec.rwc)
+	}
 	var msg Message
-	err := json.NewDecoder(codec.rwc).Decode(&msg)
+	err := codec.dec.Decode(&msg)
 	return &msg, err
 }
 
